@@ -600,7 +600,8 @@ def recovery_script(r, idx, fate_vec=None):
     if cfg.get("ticket"):
         # written before the handshake completes: goes out in 0-RTT packets
         steps.append({"do": "op", "n": 1, "c": 0, "op": {"op": "open", "dir": 0}})
-        steps.append({"do": "op", "n": 1, "c": 0, "op": {"op": "write", "id": 0, "len": r.choice([100, 700, 3000]),
+        # (some of it far larger than the initial window: early data is congestion controlled too)
+        steps.append({"do": "op", "n": 1, "c": 0, "op": {"op": "write", "id": 0, "len": r.choice([100, 700, 3000, 30000, 150000]),
                                                         "key": _skey(False, 0), "off": "auto"}})
         if r.random() < 0.5:
             steps.append({"do": "op", "n": 1, "c": 0, "op": {"op": "finish", "id": 0}})
@@ -918,6 +919,10 @@ def streamsm_from_seq(seq, r, idx):
     cfg = base_cfg(r)
     cfg["server"] = {"idle_ms": 20000, "max_bidi": r.choice([1, 2, 100]), "max_uni": r.choice([1, 100])}
     cfg["client"] = {"idle_ms": 20000, "max_bidi": r.choice([1, 2, 100]), "max_uni": r.choice([1, 100])}
+    if r.random() < 0.35:
+        # stream windows that the first writes fill exactly: a stopped writer is also a blocked one
+        for side in ("server", "client"):
+            cfg[side]["stream_recv_window"] = r.choice([10, 11, 20])
     steps = [{"do": "connect", "n": 1}, {"do": "run_until", "what": "connected", "max_us": 5000000},
              {"do": "op", "n": 1, "c": 0, "op": {"op": "open", "dir": 0}},
              {"do": "op", "n": 1, "c": 0, "op": {"op": "write", "id": 0, "len": 10, "key": 5, "off": 0}},
@@ -947,6 +952,9 @@ def streamsm_random(r, idx):
     cfg = base_cfg(r)
     cfg["server"] = {"idle_ms": 20000, "max_bidi": r.choice([1, 2, 3, 100]), "max_uni": r.choice([1, 2, 100])}
     cfg["client"] = {"idle_ms": 20000, "max_bidi": r.choice([1, 2, 3, 100]), "max_uni": r.choice([1, 2, 100])}
+    if r.random() < 0.3:
+        for side in ("server", "client"):
+            cfg[side]["stream_recv_window"] = r.choice([1, 5, 10, 2000])
     cfg["fates_c2s"] = ["ok"] * 4 + fates(r, 16)
     cfg["fates_s2c"] = ["ok"] * 4 + fates(r, 16)
     steps = [{"do": "connect", "n": 1}, {"do": "run_until", "what": "connected", "max_us": 8000000}]
